@@ -188,10 +188,9 @@ Definition run_summary : P (list Z) :=
             else match all_summaries A latest annual secs with
                  | Ok sums =>
                      let rerun := run_app A [] (number_from 0 (sums ++ rows_after latest rows)) in
-                     [0; obool (K_summary_buy_in_window A latest annual rows);
-                      obool (K_annual_sell_in_window A latest annual rows);
-                      obool (K_zero_balance_acb A latest rows);
-                      obool (roundtrip_ok A latest annual rows);
+                     let ds0 := match secs with (_, (ds, _)) :: _ => ds | [] => [] end in
+                     [0; obool (K1_of A latest annual ds0); obool (K2_of A latest annual ds0);
+                      obool (K3_of latest ds0); obool (roundtrip_of A latest annual rows ds0);
                       Z.of_nat (length sums)] ++ flat_map otx sums ++ Z.of_nat (length (oapp rerun)) :: oapp rerun ++ oapp full
                  | Rej e => [2; orej e]
                  | Panic p => 3 :: opanic p
